@@ -2,4 +2,4 @@ From Gv Require Import lib.Bytes lib.Json lib.ExtractAnchor C02.Model C02.Spec C
 Require Import ExtrOcamlBasic.
 Extraction Language OCaml.
 Extraction "model.ml" extraction_anchor load finish faulty_exchange affected requests_subset_b agree_b
-  affected_null_b expected_data errors_nonempty_b json_eqb marshal root_wf.
+  affected_null_b expected_data errors_nonempty_b json_eqb marshal root_wf fplan_wf consistent sub_b loud.
